@@ -251,7 +251,10 @@ def _require_elementwise(itp, v, pred, prefix, note):
         g = pred(t)
         if g is True:
             return
-        cx.require(f"{prefix}#{cx.ordinal(prefix)}", T.implies(hy, g), "safe", note)
+        shape = v.shape
+        # proved for an arbitrary (skolem) index = holds for every index: the universal form is what is assumed afterwards
+        univ = cx.forall(["int"] * len(shape), lambda *qs: T.implies(T.land(*[T.land(T.ge(q, 0), T.lt(q, e)) for q, e in zip(qs, shape)]), pred(v.get(tuple(qs)))))
+        cx.require(f"{prefix}#{cx.ordinal(prefix)}", T.implies(hy, g), "safe", note, assume_form=univ)
     else:
         g = pred(term_of(v))
         if g is True:
